@@ -181,6 +181,11 @@ public:
             if (work_reg->group() == RegGroup::kGp) {
               uint32_t use_id = tied_reg.use_id();
               if (use_id == Reg::kIdBad) {
+                // Only two scratch registers exist - a jump that ties more registers (e.g. AArch64 `b` given
+                // register operands, which nothing validates) must be refused instead of reading past the array.
+                if (ASMJIT_UNLIKELY(fixed_reg_count >= _pass._scratch_reg_indexes.size())) {
+                  return make_error(Error::kInvalidInstruction);
+                }
                 use_id = _pass._scratch_reg_indexes[fixed_reg_count++];
                 tied_reg.set_use_id(use_id);
               }
